@@ -65,6 +65,39 @@ def run(pid, tier, seed, replay):
                     continue
                 raise vlib.CannotRun("stepdrv failed (%s):\n%s" % (mode, p.stdout[-3000:]))
             runs.append((mode, judge, out))
+    collections = None
+    if pid == "C07" and not replay:
+        # ES2015 collections that contain themselves (one script per process: see harness/cmd/stepdrv, mode collections).  A
+        # process that dies is a rejected case; its signature (the input class - these scripts - and the call site of the
+        # overflow - goja's export of Map/Set objects) is computed here, from the crash, because a dead process leaves no trace
+        # for a TLA+ judge.  The two control scripts (collections that do not contain themselves) must simply succeed.
+        collections = {"scripts": 0, "died": 0, "failed_normally": 0, "succeeded": 0}
+        for k in range(7):
+            o = os.path.join(wd, "collections_%d.ndjson" % k)
+            p = vlib.run([drv, "collections", str(k), o], timeout=600, check=False)
+            collections["scripts"] += 1
+            control = k >= 5
+            if p.returncode != 0:
+                if "fatal error:" not in p.stdout and "panic:" not in p.stdout:
+                    raise vlib.CannotRun("stepdrv collections %d failed:\n%s" % (k, p.stdout[-2000:]))
+                collections["died"] += 1
+                frames = [l.split("(")[0].strip() for l in p.stdout.splitlines() if l.startswith("github.com/")]
+                in_export = [f for f in frames[:60] if f.endswith("goja.exportValue") or ".export" in f]
+                sig = []
+                if (not control and "fatal error: stack overflow" in p.stdout and len(in_export) >= 20
+                        and any("mapObject" in l or "setObject" in l for l in p.stdout.splitlines()[:400])):
+                    sig = ["GojaExportOfSelfContainingMapOrSet"]
+                rep.reject("the driver process was killed by the Go runtime while running collections script %d" % k, sig,
+                           {"property": pid, "labels": ["host-process-crashed"], "mode": "collections", "script": k,
+                            "how_to_rerun": "stepdrv collections %d out.ndjson" % k, "output": p.stdout[:3000]})
+                continue
+            c = json.loads(open(o).readline())
+            failed = c["outcome"] == "error" or c["to"] == "error"
+            if control and failed:
+                rep.reject("a script that uses a Map and a Set as local data fails: %s" % c["errtext"], [],
+                           {"property": pid, "labels": ["control-script-fails"], "mode": "collections", "script": k, "case": c})
+            collections["failed_normally" if failed else "succeeded"] += 1
+        log("  collections scripts: %s" % collections)
     tot = {"generated": 0, "distinct": 0}
     exhaustive = False
     if not replay and pid in ("C04", "C08", "C18"):
@@ -163,5 +196,6 @@ def run(pid, tier, seed, replay):
         "judge_stats": stats_all, "exhaustive": bool(exhaustive),
         "exhaustive_scope": "MC_Step universe (node shapes with <=1 branch in quick; <=2 branches, every 4th case exported, in thorough) enumerated by TLC and every exported case driven; generated cases are a seeded sample" if pid in ("C04", "C08", "C18") else ("MC_Walk: all 14,700 configurations (7x7 node shapes, message sequences <=3, limits 0..4, breakpoint on/off, 2 start bindings) explored by TLC and walked by the real engine in every split; generated walks are a seeded sample" if pid == "C05" else "seeded sample"),
         "known_findings_hit": {k: v["count"] for k, v in rep.known.items()},
+        "collections_scripts": collections,
     }, ASSUME[pid], time.time() - t0, len(rep.violations))
     return rc
